@@ -53,6 +53,30 @@ fn check_qvector(rep: &mut Rep, what: &'static str, qv: &QVector, want: &[u8], f
             }
         }
     }
+    // jumps so long that `consumed + k` does not fit a usize: nothing is left, and nothing comes back
+    for pre in [0usize, 1, 5, 128, 300] {
+        if pre <= n {
+            for k in [usize::MAX, usize::MAX - pre, (usize::MAX - pre).wrapping_add(1), usize::MAX / 2 + 1] {
+                if k < n.saturating_sub(pre) {
+                    continue;
+                }
+                let mut it = qv.iter();
+                for _ in 0..pre {
+                    it.next();
+                }
+                chk!(rep, "next*pre then nth(huge)", (what, pre, k), Exp::Is(None), it.nth(k));
+                chk!(rep, "next after nth(huge)", (what, pre, k), Exp::Is(None), it.next());
+                let mut it = qv.clone().into_iter();
+                for _ in 0..pre {
+                    it.next();
+                }
+                chk!(rep, "into_iter: next*pre then nth(huge)", (what, pre, k), Exp::Is(None), it.nth(k));
+                chk!(rep, "into_iter: next after nth(huge)", (what, pre, k), Exp::Is(None), it.next());
+            }
+        }
+    }
+    chk!(rep, "iter.skip(usize::MAX)", what, Exp::Is(None), qv.iter().skip(usize::MAX).next());
+    chk!(rep, "iter.step_by(usize::MAX)", what, Exp::Is(want.first().copied().into_iter().collect::<Vec<u8>>()), qv.iter().step_by(usize::MAX).collect::<Vec<u8>>());
     chk!(rep, "iter.count", what, Exp::Is(n), qv.iter().count());
     chk!(rep, "iter.last", what, Exp::Is(want.last().copied()), qv.iter().last());
     if n >= 2 {
